@@ -57,7 +57,10 @@ Definition pair_safe (cfg : pcfg) (p : pair) : bool :=
   && implb (c_complete k) (N.eqb (n_csetup k) 1 && (c_idrep k || idk_of (f_cid cfg)))
   && implb (s_complete k) (N.eqb (n_ssetup k) 1 && (s_idrep k || idk_of (f_sid cfg)))
   (* a cancel while the server's hello phase was waiting is final: nobody completes afterwards *)
-  && implb (cancelled k) (negb (c_complete k) && negb (s_complete k) && N.eqb (n_csetup k) 0 && N.eqb (n_ssetup k) 0).
+  && implb (cancelled k) (negb (c_complete k) && negb (s_complete k) && N.eqb (n_csetup k) 0 && N.eqb (n_ssetup k) 0)
+  (* a side that gave up with an error has closed its transport by the time its handler returns *)
+  && implb (N.eqb (p_st (e_c k)) 39) (p_wclosed (e_c k))
+  && implb (N.eqb (p_st (e_s k)) 39) (p_wclosed (e_s k)).
 
 Definition both_complete_open (p : pair) : bool := sum_both_complete_open (sum_of p).
 Definition both_ended (p : pair) : bool := sum_both_ended (sum_of p).
